@@ -95,6 +95,9 @@ def build_c(mod, proof, ix):
     contracts = dict(mod.contracts)
     if proof.contracts:
         contracts.update(proof.contracts)
+    if proof.harness is not None and not proof.loop_contracts and not proof.replace and not proof.enforce:
+        # plain (unwound) harness: pure execution semantics of the extracted text, no contract text at all
+        contracts = {k: {kk: vv for kk, vv in v.items() if kk == "pragmas"} for k, v in contracts.items()}
     em = emit.Emitter(ix, cfg, contracts)
     root_cnames = []
     for rn in getattr(mod, "force_records", ()):
